@@ -9,11 +9,11 @@
 use std::{
     fmt,
     hash::Hash,
-    ops,
+    mem, ops,
     sync::{Arc, PoisonError, TryLockError, TryLockResult, Weak},
 };
 #[cfg(eyeball_verif)]
-use std::{fmt, hash::Hash, ops};
+use std::{fmt, hash::Hash, mem, ops};
 #[cfg(eyeball_verif)]
 use verif_sync::{Arc, PoisonError, TryLockError, TryLockResult, Weak};
 
@@ -440,8 +440,12 @@ where
 impl<T, L: Lock> Drop for SharedObservable<T, L> {
     fn drop(&mut self) {
         // Only close the state if there are no other clones of this
-        // `SharedObservable`.
-        if Arc::strong_count(&self._num_clones) == 1 {
+        // `SharedObservable`. Giving up our reference and learning whether it
+        // was the last one has to be a single atomic step: checking the count
+        // first and releasing the reference later lets two clones that are
+        // dropped concurrently both see a count of 2 (and nobody closes), and
+        // lets a `WeakObservable` be upgraded after the state was closed.
+        if Arc::into_inner(mem::take(&mut self._num_clones)).is_some() {
             // If there are no other clones, obtaining a read lock can't fail.
             L::read_noblock(&self.state).close();
         }
